@@ -15,6 +15,7 @@ open MayVerif
 def rw : Option (String × Nat) := some ("rwlock", 0)
 def pflag : Option (String × Nat) := some ("poison", 0)     -- RwLock.poison
 def rpflag : Option (String × Nat) := some ("poison", 1)    -- rlock.poison
+def rcnt : Option (String × Nat) := some ("rcnt", 0)       -- *rlock, the reader count (verif::Counted)
 def b2i (b : Bool) : Int := if b then 1 else 0
 
 def reArg (gate : Bool) : LArg → LArg
@@ -41,9 +42,13 @@ def label (sh : Sh) (pc : Pc) (e : Env) : Label :=
   match pc, e with
   | .idle, .dropW pan => { kind := "call", op := "rwlock.drop_w", a1 := .num (b2i pan) }
   | .idle, e => { kind := "call", op := opName e }
+  | .rlk .dropR p, e => relabel false (Mutex.label sh.rl p (menvD e))
   | .rlk _ p, e | .rul _ _ p, e => relabel false (Mutex.label sh.rl p (menvR e))
   | .glk _ p, e | .gul _ p, e => relabel true (Mutex.label sh.g p (menvG e))
   | .rlp _, _ => { obj := "sync.poison.failed", inst := rpflag, op := "load", res := .num 0, ord := "Relaxed" }
+  | .rld _, _ | .rck _, _ => { obj := "sync.rwlock.rlock", inst := rcnt, op := "load", res := .num sh.r }
+  | .rinc _ _, _ => { obj := "sync.rwlock.rlock", inst := rcnt, op := "add", a1 := .num 1, res := .num sh.r }
+  | .rdec, _ => { obj := "sync.rwlock.rlock", inst := rcnt, op := "sub", a1 := .num 1, res := .num sh.r }
   | .gld _, _ => { obj := "sync.rwlock.cnt", inst := rw, op := "load", res := .num (1 - sh.g.cnt), ord := "SeqCst" }
   | .glp _, _ | .psn _, _ | .isp, _ =>
       { obj := "sync.poison.failed", inst := pflag, op := "load", res := .num (b2i sh.poison), ord := "Relaxed" }
@@ -56,6 +61,10 @@ def pcName : Pc → String
   | .idle => "idle"
   | .rlk o p => s!"{opStr o}:rlock.lock:{Mutex.pcName p}"
   | .rlp o => s!"{opStr o}:rlock.poison"
+  | .rld o => s!"{opStr o}:r.load"
+  | .rinc o _ => s!"{opStr o}:r.add"
+  | .rdec => "drop_r:r.sub"
+  | .rck _ => "drop_r:r.load"
   | .gld o => s!"{opStr o}:gate.load"
   | .glk o p => s!"{opStr o}:gate.lock:{Mutex.pcName p}"
   | .glp o => s!"{opStr o}:gate.poison(pinned)"
@@ -67,6 +76,7 @@ def pcName : Pc → String
 
 def envsFor : Pc → List Env
   | .idle => [.read, .tryRead, .write, .tryWrite, .dropR, .dropW false, .dropW true, .isPoisoned]
+  | .rlk .dropR (.w5park _) => [.go, .abort]
   | .rlk _ (.w5park _) => [.go, .abort, .abortIgnore]
   | .glk _ (.w5park _) => [.go, .abort]
   | _ => [.go]
@@ -75,23 +85,26 @@ def envsFor : Pc → List Env
 def transName (sh : Sh) (pc : Pc) (e : Env) : String :=
   let br := match pc, e with
     | .idle, e => "/" ++ opName e
+    | .rlk .dropR p, e => "/" ++ Mutex.transName sh.rl p (menvD e)
     | .rlk _ p, e | .rul _ _ p, e => "/" ++ Mutex.transName sh.rl p (menvR e)
     | .glk _ p, e | .gul _ p, e => "/" ++ Mutex.transName sh.g p (menvG e)
-    | .rlp .dropR, _ => if sh.r = 1 then "/last" else "/more"
-    | .rlp _, _ => if sh.r = 0 then "/first" else "/more"
+    | .rld _, _ => if sh.r = 0 then "/first" else "/more"
+    | .rinc _ f, _ => if f then "/first" else "/more"
+    | .rck _, _ => if sh.r = 0 then "/last" else "/more"
     | .gld _, _ => if sh.g.cnt = 1 then "/free" else "/busy"
     | .psn _, _ | .isp, _ => if sh.poison then "/poisoned" else "/clean"
     | _, _ => ""
   (match pc with
     | .idle => "idle"
     | .rlk o _ => opStr o ++ ":rlock.lock" | .rlp o => opStr o ++ ":rlock.poison" | .gld o => opStr o ++ ":gate.load"
+    | .rld o => opStr o ++ ":r.load" | .rinc o _ => opStr o ++ ":r.add" | .rdec => "drop_r:r.sub" | .rck _ => "drop_r:r.load"
     | .glk o _ => opStr o ++ ":gate.lock" | .glp o => opStr o ++ ":gate.poison" | .psn o => opStr o ++ ":poison"
     | .gul o _ => opStr o ++ ":gate.unlock" | .rul o _ _ => opStr o ++ ":rlock.unlock"
     | .wpo => "drop_w:poison.store" | .isp => "is_poisoned") ++ br
 
 /-- actors inside an rlock critical section (they may touch `*r`) -/
 def inRl : Pc → Bool
-  | .rlp _ | .rul _ _ (.p0fadd _) => true
+  | .rlp _ | .rld _ | .rinc _ _ | .rdec | .rck _ | .rul _ _ (.p0fadd _) => true
   | .gld o | .glk o _ | .psn o => reader o
   | .gul o _ => o == .dropR
   | _ => false
@@ -125,16 +138,67 @@ def invCheck (s : St) : Option String :=
   else if s.sh.g.dup || s.sh.rl.dup then some "double re-post"
   else none
 
+/-- replay state: the model state plus the mode of the trace. In LIVE traces (`live=1` in the scenario header; family
+    `rwlock_live`: coroutines and threads on the real runtime) the blockers' own park / unpark operations produce no
+    events (`Park` is filtered out, `ThreadPark` is real), so `wake1` (blocker.unpark), the return of `park` and the
+    cancellation of a parked coroutine (`Env.abort`: `park` returned `Err(Canceled)`) are SILENT model steps: when the
+    actor's next event does not match at such a pc, the machine takes the silent step first and then matches
+    (as in `MutexReplay.lean`). -/
+structure RSt where
+  st : St
+  live : Bool
+
+/-- the Mutex sub-pc of actor `u` in the gate (`gate = true`) resp. rlock component, if it is inside one -/
+def subPc (gate : Bool) : Pc → Option Mutex.Pc
+  | .glk _ p | .gul _ p => if gate then some p else none
+  | .rlk _ p | .rul _ _ p => if gate then none else some p
+  | _ => none
+
+/-- the silent steps available to actor `t` (live mode only): successor state and the name of the step -/
+def silent (s : St) (t : Nat) : List (St × String) :=
+  let wake1Of (gate : Bool) (b : Nat) : Option Nat :=
+    (List.range s.n).find? fun u => match subPc gate (s.pcs u) with | some (.wake1 w _) => w == b | _ => false
+  let parked (gate : Bool) (b : Nat) (tok : Bool) : List (St × String) :=
+    -- the waker's `blocker.unpark()` is silent too: if the token is not there yet, the actor that popped `b` delivers it first
+    let woken : Option St :=
+      if tok then step s t .go
+      else (wake1Of gate b).bind fun u => (step s u .go).bind fun s1 => step s1 t .go
+    (match woken with | some s' => [(s', "w5park/woken~")] | none => []) ++
+    (match step s t .abort with | some s' => [(s', "w5park/abort~")] | none => [])
+  match s.pcs t with
+  | .glk _ (.wake1 _ _) | .gul _ (.wake1 _ _) | .rlk _ (.wake1 _ _) | .rul _ _ (.wake1 _ _) =>
+      (match step s t .go with | some s' => [(s', "wake1~")] | none => [])
+  | .glk _ (.w5park b) => parked true b (s.sh.g.tok b)
+  | .rlk _ (.w5park b) => parked false b (s.sh.rl.tok b)
+  | _ => []
+
+def candsR (r : RSt) (t : Nat) (ev : Event) : List (Label × RSt × String) :=
+  let direct := (cands r.st t ev).map fun (l, s', nm) => (l, { r with st := s' }, nm)
+  if !r.live then direct
+  else
+    direct ++ (silent r.st t).flatMap fun (s1, nm1) =>
+      (cands s1 t ev).map fun (l, s', nm) => (l, { r with st := s' }, nm1 ++ "+" ++ nm)
+
+/-- trace actor ↦ model actor: threads `t<k>`; in live traces also coroutines named `c<k>` (`c:c<k>`), one index space,
+    and `main` (the scenario's own thread: final probes) as the last actor -/
+def actorOf (r : RSt) (a : String) : Option Nat :=
+  let idx : Option Nat :=
+    if a.startsWith "t" then (a.drop 1).toString.toNat?
+    else if r.live && a.startsWith "c:c" then (a.drop 3).toString.toNat?
+    else if r.live && a == "main" then some (r.st.n - 1)
+    else none
+  idx.bind fun t => if t < r.st.n then some t else none
+
 def machine : Machine where
-  St := St
+  St := RSt
   init := fun h => match hnat h "actors" with
-    | some n => .ok (init n ((hnat h "poisoned").getD 0 != 0))
+    | some n => .ok { st := init n ((hnat h "poisoned").getD 0 != 0), live := hget h "live" == some "1" }
     | none => .error "rwlock scenario without actors="
-  actor := fun s a => if a.startsWith "t" then ((a.drop 1).toString.toNat?).bind (fun t => if t < s.n then some t else none) else none
-  cands := cands
-  inv := invCheck
-  where_ := fun s t => pcName (s.pcs t)
-  atEnd := fun s =>
+  actor := actorOf
+  cands := candsR
+  inv := fun r => invCheck r.st
+  where_ := fun r t => pcName (r.st.pcs t)
+  atEnd := fun r => let s := r.st
     if (List.range s.n).all (fun t => s.pcs t == .idle) then
       (if s.sh.RG == 0 && s.sh.WG == 0 then
         (if s.sh.r == 0 && s.sh.g.cnt == 1 && s.sh.g.q.isEmpty && s.sh.rl.cnt == 1 && s.sh.rl.q.isEmpty then none
